@@ -60,7 +60,7 @@ CHECKS = {
                 "(parity abstract domain). Correct eviction over arbitrary histories is a statement about all "
                 "reachable policy states and is not decided.",
         "ref": "DESIGN.md section 2, C10",
-        "note": "Trusted: ast, linear forms, parity domain. Unrecognised policy shapes are reported as not decided.",
+        "note": "Trusted: ast, normal forms, abstract interpreter. LRU.access is compared with enumerated reference forms of move-to-young-end (compared by value); an unrecognised formulation is reported as a violation (fail-closed).",
         "technique": "static analysis: reference comparison of CacheSet.read/write on dataflow normal forms + abstract interpretation of both PLRU walks (affine forms over bit symbols, depths 0..4) + who-may-call",
     },
     "C11": {
@@ -76,7 +76,7 @@ CHECKS = {
     "C12": {
         "text": "Decides the mechanisms per path: write-through writes lower memory exactly once with the caller's "
                 "address/value on every accepted path and touches the cache only on a hit; every write-back "
-                "write_block site consumes the displaced block on the not-None path; CacheSet.write captures a "
+                "write_block site consumes the displaced block on the not-None path with nothing that can raise in between; CacheSet.write captures a "
                 "dirty victim before overwriting and marks every written block dirty. The invariants over "
                 "reachable cache states are not decided.",
         "ref": "DESIGN.md section 2, C12",
@@ -96,7 +96,7 @@ CHECKS = {
     "C20": {
         "text": "Decides the sequencing clauses: in both half-steps the is_done() return and the next_cycle test "
                 "dominate the first effect on every path; wrong-order paths end in raise StepSequenceError before "
-                "any effect; step() and single_step() act only through the self-guarded halves in the right "
+                "any effect and the construction of that error cannot itself fail on a None field; step() and single_step() act only through the self-guarded halves in the right "
                 "order / on the right flag value; next_cycle has exactly three writers (1, ->2, ->1). Snapshot "
                 "equality at instruction boundaries by value is not decided.",
         "ref": "DESIGN.md section 2, C20",
@@ -194,7 +194,7 @@ CHECKS = {
                 "the 4300-digit limit, unless guarded by except ValueError -> parser error; every raise in the call-"
                 "graph closure of both parse() methods is a sanctioned type (tabled exemptions with checked "
                 "preconditions); line numbers derive from enumerate(splitlines())+1 at all 19 construction sites; "
-                "guarded dictionary lookups; broad run-time wrapper reporting the failing stage's input latch; "
+                "guarded dictionary lookups; parser entries that may be plain strings are used as ParseResults only under a not-a-str test (guard-fact walk); broad run-time wrapper reporting the failing stage's input latch; "
                 "front-end classification. IndexError/TypeError sites of ordinary subscripts are not enumerated.",
         "ref": "DESIGN.md section 2, C15",
         "note": "Trusted: ast, CPython literal syntax as modelled, sa.ppgram, sa.effects closure.",
